@@ -609,7 +609,7 @@ def run(ctx):
         d["call_terms"] = [_tt(t) for t in d["call_terms"]]
         d["live"] = [(cid, [_tt(t) for t in hd]) for cid, hd in d["live"]]
         d["qid"] = d["qid"]
-    ncases = 320 if tier == "quick" else 8000
+    ncases = 320 if tier == "quick" else 4000
     cases = [gen_case(rng, n, tier) for n in range(ncases)]
     run_list = [{"impl": c.impl, "model": c.model} for c in cases]
     for d in corpus:
